@@ -27,7 +27,9 @@ pub struct FileSpec { pub name: String, pub content: String, pub kind: FileKind 
 pub enum FileKind { Root, /** the second `.tiny` file of a two-root directory */ SecondRoot, Diff { from: usize, to: usize }, Noise, Bad }
 
 const PLAIN: &[&str] = &["1.0.0", "1.3", "1.4.1", "1.5", "1.7.10", "1.12-pre3-1409", "1.RV-Pre1", "12w05a-1442", "13w16a-04192037", "b1.1-1245", "b1.3-1750-client", "b1.3-1731-server", "b1.8-pre1-201109081459",
-    "a1.0.5-2149", "a1.2.3_01-0958", "af-2013-red", "inf-20100618", "c0.30-c-1900", "rd-132211-launcher", "1.14_combat-212796", "3D Shareware v1.34", "1.1", "1.10", "1.1.1", "x.tiny", "y.tinydiff", ".hidden", "1.0-ß", "版本1", "A", "a"];
+    "a1.0.5-2149", "a1.2.3_01-0958", "af-2013-red", "inf-20100618", "c0.30-c-1900", "rd-132211-launcher", "1.14_combat-212796", "3D Shareware v1.34", "1.1", "1.10", "1.1.1", "x.tiny", "y.tinydiff", ".hidden", "1.0-ß", "版本1", "A", "a",
+    // names that are keys of the binary's table of short names next to the long names the table maps them to: each is a version of its own
+    "b1.1", "b1.4", "b1.4-1507", "b1.8-pre1", "b1.8-pre1-201109091357", "b1.9-pre3", "b1.9-pre3-201110061350", "b1.1-client", "b1.1-1255"];
 const CLIENT: &[&str] = &["a1.0.15", "a1.0.16_01", "a1.1.1", "a1.2.0_01", "a1.2.6", "1.1", "1.2", "1.4", "b1.0", "client.tiny", "c"];
 const SERVER: &[&str] = &["server-a0.1.0", "server-a0.1.2_01", "server-a0.2.1", "server-a0.2.2_01", "server-a0.2.8", "server-0.1", "server-0.2", "server-0.4", "b1.0-server", "server.tinydiff", "s"];
 
